@@ -157,7 +157,9 @@ func c14Group(p *c14Pool, g *config.Group) string {
 		pol = fmt.Sprintf("fixed:%d", policy.FixedIndex)
 		sel = c14FixedSel(grp, policy.FixedIndex, func(d *dialer.Dialer) (int, bool) { i, ok := p.index[d]; return i, ok })
 	}
-	return fmt.Sprintf("ok pol=%s members=%s sel=%s", pol, c14Members(p, grp.Dialers, grp.dialersAnnotations), sel)
+	idxOf := func(d *dialer.Dialer) (int, bool) { i, ok := p.index[d]; return i, ok }
+	return fmt.Sprintf("ok pol=%s members=%s sel=%s off=%s", pol, c14Members(p, grp.Dialers, grp.dialersAnnotations), sel,
+		c14Offsets(grp.VerifC14AliveSets(), grp.Dialers, idxOf))
 }
 
 // ---------------------------------------------------------------- the test
@@ -293,8 +295,14 @@ func TestVerifC14(t *testing.T) {
 		if len(nodes) > 64 {
 			nd = 2 + r.Intn(2)
 		}
+		var prevDef *c14Def
 		for k := 0; k < nd; k++ {
 			d := c14GenDef(r, nodes, stats)
+			if prevDef != nil && r.Chance(0.2) { // a near twin of the previous definition over the SAME pool object
+				d = c14Twin(r, prevDef, stats)
+				stats.Inc("def.near_twin_of_previous_definition_same_pool")
+			}
+			prevDef = d
 			if len(nodes) > 64 && k == 0 { // at least one multi-line annotated definition per large pool
 				for len(d.Lines) < 2 {
 					d = c14GenDef(r, nodes, stats)
@@ -310,6 +318,50 @@ func TestVerifC14(t *testing.T) {
 				stats.Inc("def.length_mismatch")
 			}
 			run(nodes, pool, d, direct)
+		}
+		// a HISTORY: one definition, evaluated again after each of a few subscription updates (a node
+		// renamed / moved to another subscription / removed / added / offered twice / two swapped / no
+		// change) — what a reload does; the previous pool is closed only after the next one was
+		// evaluated.  State kept between calls (the package-level regexp cache; anything a change
+		// might add) must not leak from one pool into the next.
+		if len(nodes) <= 64 && r.Chance(0.12) {
+			d := c14GenDef(r, nodes, stats)
+			for try := 0; try < 6 && len(d.Lines) == 0; try++ {
+				d = c14GenDef(r, nodes, stats)
+			}
+			direct := r.Chance(0.15)
+			bag := func(ns []c14Node) (string, bool) {
+				g := c14Direct(d)
+				var b strings.Builder
+				o := c14BodyTok(&b, ns, g)
+				return c14MemberBag(o, ns, g), c14Valid(o, g)
+			}
+			stats.Inc("hist.histories")
+			cur, prevPool := nodes, pool
+			last, _ := bag(cur)
+			run(cur, prevPool, d, direct)
+			for step := 2 + r.Intn(3); step > 0; step-- {
+				var edit string
+				cur, edit = c14MutatePool(r, cur)
+				stats.Inc("hist.step." + edit)
+				np := c14NewPool(cur)
+				run(cur, np, d, direct)
+				if now, valid := bag(cur); valid {
+					if now != last {
+						stats.Inc("discrim.hist_pool_edit_changes_members")
+					} else {
+						stats.Inc("hist.pool_edit_leaves_members_unchanged")
+					}
+					last = now
+				}
+				if prevPool != pool {
+					prevPool.Close()
+				}
+				prevPool = np
+			}
+			if prevPool != pool {
+				prevPool.Close()
+			}
 		}
 		pool.Close()
 	}
